@@ -136,7 +136,11 @@ class Walker(object):
                 continue
             if isinstance(st, ast.Try):
                 self.ev("other", "try", guards)
-                self.stmts(st.body, guards + ["unknown:try"])
+                # the body of a `try` runs like straight-line code PROVIDED no handler can swallow an exception:
+                # every handler must end in a bare `raise` (try/finally has no handlers). Otherwise a validate() inside
+                # it no longer enforces anything, and the body stays guarded by `unknown:try`.
+                reraises = all(h.body and isinstance(h.body[-1], ast.Raise) and h.body[-1].exc is None for h in st.handlers)
+                self.stmts(st.body, guards if reraises else guards + ["unknown:try"])
                 for h in st.handlers:
                     self.stmts(h.body, guards + ["unknown:except"])
                 self.stmts(st.orelse, guards + ["unknown:try-else"])
